@@ -98,6 +98,15 @@ class RefSession:
             sk, pk = k.derive_key_pair(op.b["ikm"])
             pkb = k.serialize_public(pk)
             return {"ok": {"sk": k.serialize_private(sk), "pk": pkb, "pk2": pkb}, "clamp": ["sk"] if k.curve is None else []}
+        if o == "derive_toy":
+            from ref import toyhash
+            st, skb, counter, seen = toyhash.derive(k.kem_id, op.b["ikm"], op.b["table"])
+            if st != "ok":
+                # RFC 9180 7.1.3: DeriveKeyPairError after 256 rejected candidates; the crate documents a panic
+                return {"panic_or_err": True}
+            sk = skb if k.curve is None else int.from_bytes(skb, "big")
+            pkb = k.serialize_public(k.pk(sk))
+            return {"ok": {"sk": skb, "pk": pkb, "pk2": pkb}, "clamp": ["sk"] if k.curve is None else []}
         if o == "gen_keypair":
             rng = op.b["rng"]
             if len(rng) < k.nsk:
@@ -281,6 +290,10 @@ def compare(op, exp):
         return ["call never returned"]
     if "skip" in op.ret:
         return []
+    if "panic_or_err" in exp:
+        if "ok" in op.ret:
+            out.append("expected DeriveKeyPairError (all 256 candidates out of range), got %s" % op.outcome())
+        return out
     if "panic" in exp:
         if "panic" not in op.ret:
             out.append("expected a panic (export-only context), got %s" % op.outcome())
